@@ -1490,8 +1490,15 @@ hwloc__export_synthetic_memory_children(struct hwloc_topology * topology, unsign
       hwloc__export_synthetic_add_char(&ret, &tmp, &tmplen, ' ');
 
     /* ignore memcaches and export the NUMA node */
-    while (mchild->type != HWLOC_OBJ_NUMANODE)
+    while (mchild && mchild->type != HWLOC_OBJ_NUMANODE)
       mchild = mchild->memory_first_child;
+    if (!mchild) {
+      /* a memory-side cache without any NUMA node below it (may come from XML), cannot be described */
+      if (verbose)
+	fprintf(stderr, "Cannot export to synthetic, a memory-side cache has no NUMA node below it.\n");
+      errno = EINVAL;
+      return -1;
+    }
     res = hwloc__export_synthetic_obj(topology, flags, mchild, 1, tmp, tmplen);
     if (hwloc__export_synthetic_update_status(&ret, &tmp, &tmplen, res) < 0)
       return -1;
@@ -1520,7 +1527,13 @@ hwloc__export_synthetic_memory_children(struct hwloc_topology * topology, unsign
       }
       numanode = numanode->memory_first_child;
     }
-    assert(numanode); /* there's always a numanode at the bottom of the memory tree */
+    if (!numanode) {
+      /* a memory-side cache without any NUMA node below it (may come from XML), cannot be described */
+      if (verbose)
+	fprintf(stderr, "Cannot export to synthetic, a memory-side cache has no NUMA node below it.\n");
+      errno = EINVAL;
+      return -1;
+    }
 
     if (needprefix)
       hwloc__export_synthetic_add_char(&ret, &tmp, &tmplen, ' ');
